@@ -261,7 +261,7 @@ pub struct Names { pub opaques: Vec<String>, pub structs: Vec<String>, pub outst
 
 /// shapes to stay away from (used to look *behind* known findings)
 #[derive(Clone, Copy, Debug, Default)]
-pub struct Avoid { pub noncustom_result_err: bool, pub byte_slices: bool, pub callbacks_on_methods_with_self: bool }
+pub struct Avoid { pub noncustom_result_err: bool, pub byte_slices: bool, pub callbacks_on_methods_with_self: bool, pub more_zst: bool, pub opt_unit_write: bool }
 
 pub struct Gen<'a> { pub rng: &'a mut Rng, pub prof: Profile, pub names: Names, pub avoid: Avoid }
 
@@ -397,7 +397,8 @@ impl<'a> Gen<'a> {
             }
         }
         let mut ret = self.valid_ret();
-        let takes_write = self.rng.chance(1, 6) && matches!(ret, None | Some(Ty::Unit) | Some(Ty::Res(..)));
+        let opt_unit = self.avoid.opt_unit_write && matches!(&ret, Some(Ty::Opt(i, _)) if **i == Ty::Unit);
+        let takes_write = (self.rng.chance(1, 6) && matches!(ret, None | Some(Ty::Unit) | Some(Ty::Res(..)))) || (opt_unit && self.rng.chance(1, 2));
         if takes_write {
             if let Some(Ty::Res(ok, _, _)) = &mut ret { **ok = Ty::Unit; }
             params.push(("write".into(), Ty::Write));
@@ -428,7 +429,7 @@ impl<'a> Gen<'a> {
         let n_st = rng.below(3);
         let n_out = rng.below(2);
         let n_en = rng.below(2);
-        let has_zst = rng.chance(1, 6);
+        let has_zst = if avoid.more_zst { rng.chance(1, 2) } else { rng.chance(1, 6) };
         let names = Names {
             opaques: (0..n_op).map(|i| format!("Op{}", crate::util::letters(i))).collect(),
             structs: (0..n_st).map(|i| format!("St{}", crate::util::letters(i))).collect(),
